@@ -3,7 +3,7 @@
     All theorems are about [format_bonding] as GENERATED from write_cgsmiles.py (Gen/WriterGen.v) on every run.
     Since the fix 1a5deb0 in /repo (`bond_str += order_symb`) the FULL statement about format_bonding holds
     ([C08_format_bonding_spec]; before, it was refuted by ["$a1";"$b2"] -> "=[$b]"), and composed with the
-    strip component's theorem [strip_correct] it gives the descriptor round trip for orders 0..3
+    strip component's theorem [strip_correct] it gives the descriptor round trip for orders 0..4
     ([C08_format_strip_roundtrip]; order 0 included since the reader fix 0d0f450).
     The fragment-set and whole-string round trips are NOT proved: they are decided per run on the
     implementation's outputs (Write/FragCheck.v) with the writer model (Write/WriteImpl.v) tied to the code by
@@ -34,7 +34,7 @@ Theorem C08_format_bonding_single : forall kl o, (o <= 4)%nat ->
 Proof. exact format_bonding_single. Qed.
 
 (** descriptor ROUND TRIP, unbounded: for every organic-subset atom [e] and every list L of descriptors
-    (kind in $ > < !, alphanumeric label, order 0..3, any length, any mixture of orders) the text
+    (kind in $ > < !, alphanumeric label, order 0..4, any length, any mixture of orders) the text
     e ++ format_bonding(L) is read by the strip model as clean text [e] with exactly L on atom 0.
     Writer half: this component (generated code); reader half: Frag.FragProofs.strip_correct (the model
     StripImpl is tied to read_fragments.py by the strip component's own correspondence check). *)
@@ -52,7 +52,7 @@ Theorem C08_format_strip_roundtrip_coarse : forall fo nm (L : list dspec) a0,
              strip_bonding_descriptors fo (coarse_text nm ++ fb)
              = Ok (coarse_text nm, fold_left (fun d x => nd_append 0 (d_stored x) d) L [], [], nd_update 0 a0 []).
 Proof. exact format_strip_roundtrip_coarse. Qed.
-(** coarse fragment CHAINS, unbounded: for a chain of coarse nodes (names, descriptor lists with orders 0..3, bonds
+(** coarse fragment CHAINS, unbounded: for a chain of coarse nodes (names, descriptor lists with orders 0..4, bonds
     of order 0..4, any length) write_graph(smiles_format=False) writes a text that the model of the coarse branch
     of fragment_iter (strip_bonding_descriptors through the strip component's strip_correct, then
     read_fragment_cgsmiles: the reader component's reader_sim_lin_nobrace + its post-processing) reads as the chain
@@ -104,7 +104,7 @@ Proof. exact split_coarse_fragments. Qed.
 (** ... and fragment_iter(all_atom=False) on the written text ([read_coarse_fragments] = fragment_split, then per
     definition strip_bonding_descriptors and read_fragment_cgsmiles) yields, in the same order and under the same
     names, every chain numbered 0..n with its names' attributes, bond orders and exactly its descriptor dict
-    ([cf_read]); descriptors of the four kinds, orders 0..3, bonds 0..4.  Hypotheses kept per fragment ([cf_ok]):
+    ([cf_read]); descriptors of the four kinds, orders 0..4, bonds 0..4.  Hypotheses kept per fragment ([cf_ok]):
     distinct keys with the smallest at one end, names accepted by the strip and reader grammars and free of ',' (and
     of '=' for the fragment name). *)
 Theorem C08_coarse_fragments_roundtrip : forall fo A a0 (fs : list cfrag),
